@@ -546,6 +546,32 @@ class Node:
 
     # --------------------------------------------------------------------------
 
+    def _add_nodes(
+        self, nodes: list[Node], *, before: Optional[Node | bool | int], deep: bool
+    ) -> Node | None:
+        """Add copies of `nodes` as one run of children (keeping their order).
+
+        All new data_ids are checked up-front, so a refused call does not leave
+        a part of the nodes behind. The source list is not modified.
+        """
+        insert_pos = self._calc_insert_pos(before)
+        own_ids = {n._data_id for n in self.children}
+        for n in nodes:
+            if n._data_id in own_ids:
+                raise UniqueConstraintError(f"Node.data already exists in parent: {n}")
+        if insert_pos is not None:
+            # Normalize, so we can simply increment for the following nodes
+            count = len(self.children)
+            if insert_pos < 0:
+                insert_pos = max(0, count + insert_pos)
+            insert_pos = min(insert_pos, count)
+        res = None
+        for n in list(nodes):
+            res = self.add_child(n, before=insert_pos, deep=deep)
+            if insert_pos is not None:
+                insert_pos += 1
+        return res  # need to return a node
+
     def _calc_insert_pos(self, before: Optional[Node | bool | int]) -> int | None:
         """Validate `before` and return the child list index (None: append).
 
@@ -627,12 +653,7 @@ class Node:
         if isinstance(child, self._tree.__class__):
             if deep is None:
                 deep = True
-            topnodes = child._root.children
-            if isinstance(before, (int, Node)) or before is True:
-                topnodes.reverse()
-            for n in topnodes:
-                self.add_child(n, before=before, deep=deep)
-            return n  # need to return a node
+            return self._add_nodes(child._root.children, before=before, deep=deep)
 
         # Validate the position before the new node is created and registered
         insert_pos = self._calc_insert_pos(before)
@@ -873,8 +894,15 @@ class Node:
         assert before is None
         if not self._children:
             raise ValueError("Need child nodes when `add_self=False`")
-        res = None
+        # Check all new data_ids up-front, so a refused call has no partial effect
+        target_ids = {n._data_id for n in target.children}
         for child in self.children:
+            if child._data_id in target_ids:
+                raise UniqueConstraintError(
+                    f"Node.data already exists in parent: {child}"
+                )
+        res = None
+        for child in list(self.children):
             n = target.add_child(child, before=None, deep=deep)
             res = res or n  # Return the first new node
         return res  # type: ignore
